@@ -30,10 +30,17 @@ import (
 )
 
 const (
-	verifDir = "/verif"
-	repoDir  = "/repo"
-	goBin    = "go1.26.8"
+	repoDir = "/repo"
+	goBin   = "go1.26.8"
 )
+
+// verifDir is where the framework lives: /verif, or a snapshot of it (VERIF_DIR, set by ./check).
+var verifDir = func() string {
+	if d := os.Getenv("VERIF_DIR"); d != "" {
+		return d
+	}
+	return "/verif"
+}()
 
 type failure struct {
 	Oracle string `json:"Oracle"`
